@@ -346,7 +346,13 @@ func longLines(k *sink) {
 		vtt := "WEBVTT\n\n" + strings.ReplaceAll(srt, ",", ".")
 		ssa := "[Script Info]\nScriptType: v4.00+\n\n[V4+ Styles]\nFormat: Name, Fontname, Fontsize\nStyle: Default,Arial,20\n\n[Events]\nFormat: Layer, Start, End, Style, Name, MarginL, MarginR, MarginV, Effect, Text\n" +
 			"Dialogue: 0,0:00:01.00,0:00:02.00,Default,,0,0,0,,first\nDialogue: 0,0:00:03.00,0:00:04.00,Default,,0,0,0,,{\\p1}" + long + "\nDialogue: 0,0:00:05.00,0:00:06.00,Default,,0,0,0,,third\nDialogue: 0,0:00:07.00,0:00:08.00,Default,,0,0,0,,fourth\n"
-		for _, c := range []struct{ f, d string }{{"srt", srt}, {"vtt", vtt}, {"ssa", ssa}} {
+		// the over-long line sits where the reader does not look at the content: a comment block, a style block, a section
+		// it does not know - the cues after it are lost all the same unless the reader says so
+		vttNote := "WEBVTT\n\n00:00:01.000 --> 00:00:02.000\nfirst\n\nNOTE " + long + "\n\n00:00:03.000 --> 00:00:04.000\nsecond\n\n00:00:05.000 --> 00:00:06.000\nthird\n\n00:00:07.000 --> 00:00:08.000\nfourth\n"
+		ssaUnk := "[Script Info]\nScriptType: v4.00+\n\n[Events]\nFormat: Layer, Start, End, Style, Name, MarginL, MarginR, MarginV, Effect, Text\n" +
+			"Dialogue: 0,0:00:01.00,0:00:02.00,Default,,0,0,0,,first\nDialogue: 0,0:00:03.00,0:00:04.00,Default,,0,0,0,,second\n\n[Graphics]\nfilename: logo.bmp\n" + long + "\n\n[Events]\n" +
+			"Format: Layer, Start, End, Style, Name, MarginL, MarginR, MarginV, Effect, Text\nDialogue: 0,0:00:05.00,0:00:06.00,Default,,0,0,0,,third\nDialogue: 0,0:00:07.00,0:00:08.00,Default,,0,0,0,,fourth\n"
+		for _, c := range []struct{ f, d string }{{"srt", srt}, {"vtt", vtt}, {"ssa", ssa}, {"vtt", vttNote}, {"ssa", ssaUnk}} {
 			res, dg, items, msg := parseWith(c.f, []byte(c.d), nil)
 			if dg == "ERR" {
 				res = "err"
